@@ -13,7 +13,7 @@ from scipy.optimize._constraints import PreparedConstraint
 
 
 from .settings import PRINT_OPTIONS, BARRIER
-from .utils import CallbackSuccess, get_arrays_tol
+from .utils import CallbackSuccess
 from .utils import exact_1d_array
 
 
@@ -23,7 +23,7 @@ def _get_limits_tol(lb, ub):
 
     The tolerances are relative to the magnitudes of each pair of limits, so
     that two distinct limits are not merged because another component of the
-    same arrays is large.
+    same arrays is large, or because the arrays have many components.
 
     Parameters
     ----------
@@ -44,7 +44,7 @@ def _get_limits_tol(lb, ub):
             weight[is_finite],
             np.abs(array[is_finite]),
         )
-    return get_arrays_tol(lb, ub) / np.max(weight, initial=1.0) * weight
+    return 10.0 * np.finfo(float).eps * weight
 
 
 class ObjectiveFunction:
